@@ -21,3 +21,9 @@ func (s *Server) VerifRemoveSession(sess *yamux.Session) { s.removeSession(sess)
 func (s *Server) VerifRoutes() gin.RoutesInfo {
 	return s.httpServer.Handler.(*gin.Engine).Routes()
 }
+
+// VerifClose ends the server abruptly: no graceful HTTP shutdown.
+func (s *Server) VerifClose() {
+	s.cancel()
+	_ = s.httpServer.Close()
+}
